@@ -456,14 +456,18 @@ def binop(I, st, op, a, b, node=None):
             ia = z3.If(smt.kd(a2.t, K_BOOL), z3.If(bval(a2.t), 1, 0), ival(a2.t))
             ib = z3.If(smt.kd(b2.t, K_BOOL), z3.If(bval(b2.t), 1, 0), ival(b2.t))
             r = ia + ib if isinstance(op, ast.Add) else ia - ib
-            cases = [(bothint, SV(smt.mk_int(r))), (z3.Not(bothint), "other")]
-            out = []
-            for s, p in branch(ctx, st, cases):
-                if p == "other":
-                    ctx.refute_or_oos(s, "non-integer +/-")
-                    continue
-                out.append((s, p))
-            return out
+            bothnum = z3.And(smt.is_numeric(a2.t), smt.is_numeric(b2.t))
+            na, nb = smt.num(a2.t), smt.num(b2.t)
+            a_ok = z3.Or(z3.Not(smt.kd(a2.t, K_INT)), int2float_ok(ival(a2.t)))
+            b_ok = z3.Or(z3.Not(smt.kd(b2.t, K_INT)), int2float_ok(ival(b2.t)))
+            fa, fb = to_float(na), to_float(nb)
+            exact = fa + fb if isinstance(op, ast.Add) else fa - fb
+            cases = [(bothint, SV(smt.mk_int(r))),
+                     (z3.And(bothnum, z3.Not(bothint), z3.Not(z3.And(a_ok, b_ok))), raised("OverflowError", "int too large to convert to float")),
+                     # float result: the rounded exact sum/difference (exact when representable)
+                     (z3.And(bothnum, z3.Not(bothint), a_ok, b_ok), SV(smt.mk_float(to_float(exact)))),
+                     (z3.Not(bothnum), raised("TypeError", "+/- on non-numbers"))]
+            return branch(ctx, st, cases)
     if isinstance(a, FractionV) and isinstance(b, FractionV) and isinstance(op, ast.Div):
         cases = [(b.t != 0, FractionV(a.t / b.t)), (b.t == 0, raised("ZeroDivisionError", "Fraction/"))]
         return branch(ctx, st, cases)
@@ -734,6 +738,13 @@ def call_builtin(I, st, name, args, kwargs, node=None):
         return prim_zip(I, st, args)
     if name == "getattr":
         return prim_getattr(I, st, args)
+    if name == "setattr":
+        obj, nm, val = args
+        if isinstance(obj, ErrRef) and isinstance(nm, SV) and nm.known:
+            s = st.fork()
+            s.heap[obj.oid] = s.heap[obj.oid].with_field(nm.conc, val)
+            return [(s, lift(None))]
+        raise OutOfSubset("setattr(%r, %r)" % (obj, nm))
     if name == "next":
         return prim_next(I, st, args)
     if name == "iter":
@@ -831,10 +842,17 @@ def set_len(I, st, lo):
     are == -equal."""
     from .interp import add_lemma
     parts = [p for p in st.heap[lo.oid]["parts"] if not isinstance(p, Nil)]
-    if len(parts) != 1 or not isinstance(parts[0], For):
-        raise OutOfSubset("len of a set that is not a comprehension over one container")
-    f = parts[0]
-    e_i = elem_term(f.body)
+    try:
+        if len(parts) != 1 or not isinstance(parts[0], For):
+            raise OutOfSubset("len of a set that is not a comprehension over one container")
+        f = parts[0]
+        e_i = elem_term(f.body)
+    except OutOfSubset:
+        # a filtered / composite set: only "non-negative, zero iff empty" is known about its size
+        m = smt.fresh_fn("setlen", st.loopvars, smt.I)
+        s = st.fork()
+        add_lemma(s, z3.And(m >= 0, (m == 0) == seq_empty(cat(*parts))))
+        return [(s, SInt(m))]
     j = smt.fresh("sj", smt.I)
     e_j = z3.substitute(e_i, (f.ivar, j))
     m = smt.fresh_fn("setlen", st.loopvars, smt.I)
@@ -966,6 +984,8 @@ def prim_getattr(I, st, args):
     obj, name = args[0], args[1]
     if not (isinstance(name, SV) and name.known and isinstance(name.conc, str)):
         raise OutOfSubset("getattr with symbolic name")
+    if isinstance(obj, ErrRef):
+        return get_attr(I, st, obj, name.conc)
     hook = I.ctx.config.get("hasattr_hook")
     has = hook(I, st, obj, name.conc) if hook else None
     if has is None:
